@@ -92,6 +92,23 @@ func (x *Exec) itoa(v *Term) strVal {
 }
 
 func (x *Exec) pf(bs []*Term) *Term {
+	// decimal notation fact: "D.0" denotes the same number as "D" when D is an optional '-' and digits
+	if n := len(bs); n >= 3 && bs[n-1].op == OConst && bs[n-1].u == '0' && bs[n-2].op == OConst && bs[n-2].u == '.' {
+		ok := true
+		for i, b := range bs[:n-2] {
+			if i == 0 && b.op == OConst && b.u == '-' && n > 3 {
+				continue
+			}
+			lo, hi, _ := x.tb.urange(b)
+			if lo < '0' || hi > '9' {
+				ok = false
+				break
+			}
+		}
+		if ok {
+			bs = bs[:n-2]
+		}
+	}
 	// pack bytes into one bit-vector argument
 	var arg *Term
 	for _, b := range bs {
